@@ -2827,6 +2827,17 @@ LEFT JOIN conversions ON {join_condition}{group_by}{order_clause}{limit_clause}
                     # Fallback to the metric name itself
                     base_alias = base_ref
 
+            # Partition by the non-time dimensions so running totals do not leak across groups
+            cum_partition_cols = []
+            for partition_dim_ref, partition_gran in parsed_dims:
+                partition_dim_name = partition_dim_ref.split(".")[1] if "." in partition_dim_ref else partition_dim_ref
+                partition_alias = f"{partition_dim_name}__{partition_gran}" if partition_gran else partition_dim_name
+                partition_col = f"base.{partition_alias}"
+                if partition_col != time_dim and partition_col not in cum_partition_cols:
+                    cum_partition_cols.append(partition_col)
+            cum_partition = f"PARTITION BY {', '.join(cum_partition_cols)} " if cum_partition_cols else ""
+            cum_partition_extra = f", {', '.join(cum_partition_cols)}" if cum_partition_cols else ""
+
             # Determine aggregation function (default to SUM for backwards compatibility)
             agg_func = (metric.agg or "sum").upper()
             if agg_func == "COUNT_DISTINCT":
@@ -2842,20 +2853,20 @@ LEFT JOIN conversions ON {join_condition}{group_by}{order_clause}{limit_clause}
                 grain = metric.grain_to_date
                 partition = self._date_trunc(grain, time_dim)
 
-                window_expr = f"{agg_func}({base_col}) OVER (PARTITION BY {partition} ORDER BY {time_dim} ROWS BETWEEN UNBOUNDED PRECEDING AND CURRENT ROW) AS {metric_alias}"
+                window_expr = f"{agg_func}({base_col}) OVER (PARTITION BY {partition}{cum_partition_extra} ORDER BY {time_dim} ROWS BETWEEN UNBOUNDED PRECEDING AND CURRENT ROW) AS {metric_alias}"
             elif metric.window:
                 # Parse window (e.g., "7 days")
                 window_parts = metric.window.split()
                 if len(window_parts) == 2:
                     num, unit = window_parts
                     # For date-based windows, use RANGE
-                    window_expr = f"{agg_func}({base_col}) OVER (ORDER BY {time_dim} RANGE BETWEEN INTERVAL '{num} {unit}' PRECEDING AND CURRENT ROW) AS {metric_alias}"
+                    window_expr = f"{agg_func}({base_col}) OVER ({cum_partition}ORDER BY {time_dim} RANGE BETWEEN INTERVAL '{num} {unit}' PRECEDING AND CURRENT ROW) AS {metric_alias}"
                 else:
                     # Fallback to rows
-                    window_expr = f"{agg_func}({base_col}) OVER (ORDER BY {time_dim} ROWS BETWEEN UNBOUNDED PRECEDING AND CURRENT ROW) AS {metric_alias}"
+                    window_expr = f"{agg_func}({base_col}) OVER ({cum_partition}ORDER BY {time_dim} ROWS BETWEEN UNBOUNDED PRECEDING AND CURRENT ROW) AS {metric_alias}"
             else:
                 # Running total (unbounded window)
-                window_expr = f"{agg_func}({base_col}) OVER (ORDER BY {time_dim} ROWS BETWEEN UNBOUNDED PRECEDING AND CURRENT ROW) AS {metric_alias}"
+                window_expr = f"{agg_func}({base_col}) OVER ({cum_partition}ORDER BY {time_dim} ROWS BETWEEN UNBOUNDED PRECEDING AND CURRENT ROW) AS {metric_alias}"
 
             select_exprs.append(window_expr)
             cumulative_window_entries.append((window_expr, metric_alias))
